@@ -15,12 +15,13 @@ use std::sync::Mutex;
 pub fn smoke() -> i32 {
     std::env::set_var("NUN_ELECTION_TIMEOUT", "30");
     quiet_panics();
+    let ids: Vec<u128> = std::env::var("VERIF_SMOKE_IDS").ok().map(|s| s.split(',').filter_map(|x| x.parse().ok()).collect()).unwrap_or(vec![100, 200, 300]);
     let mut c = Cluster::new(3, seed(), "smoke");
-    c.start_node(0, 100, &[]);
+    c.start_node(0, ids[0], &[]);
     println!("-> {:?}", c.run_until_quiet());
-    c.start_node(1, 200, &[0, 1]);
+    c.start_node(1, ids[1], &[0, 1]);
     println!("-> {:?}", c.run_until_quiet());
-    c.start_node(2, 300, &[0, 1, 2]);
+    c.start_node(2, ids[2], &[0, 1, 2]);
     println!("-> {:?}", c.run_until_quiet());
     for l in c.trace() {
         println!("{}", l);
